@@ -38,6 +38,52 @@ Proof.
   destruct (IH H) as [H1 H2]. split; right; auto.
 Qed.
 
+(* ---------- helpers for memory_rooms ---------- *)
+Lemma NoDup_nodupb l : NoDup l -> nodupb l = true.
+Proof.
+  induction 1 as [|x t Hn Hd IH]; cbn [nodupb]; [reflexivity|]. rewrite IH, andb_true_r. apply negb_true_iff. apply not_true_is_false. intros E.
+  apply existsb_exists in E. destruct E as (y & Hy & E). apply Z.eqb_eq in E. subst. contradiction.
+Qed.
+Lemma filter_length_perm {A} (f : A -> bool) l l' : Permutation l l' -> length (filter f l) = length (filter f l').
+Proof. induction 1; cbn [filter]; auto; try (destruct (f x); cbn [length]; auto); try (destruct (f y), (f x); cbn [length]; auto); congruence. Qed.
+Lemma filter_none x l : ~ In x l -> filter (Z.eqb x) l = [].
+Proof. induction l as [|z t IH]; intros H; [reflexivity|]. cbn [filter]. destruct (Z.eqb_spec x z) as [->|_]; [exfalso; apply H; left; auto | apply IH; intros H'; apply H; right; auto]. Qed.
+Lemma filter_eq_one x l : NoDup l -> In x l -> length (filter (Z.eqb x) l) = 1%nat.
+Proof.
+  induction 1 as [|y t Hn Hd IH]; intros Hin; [destruct Hin|]. cbn [filter]. destruct (Z.eqb_spec x y) as [->|Ne].
+  - cbn [length]. rewrite (filter_none y t Hn). reflexivity.
+  - apply IH. destruct Hin as [E|Hin]; [congruence | exact Hin].
+Qed.
+Lemma pos_eq_dec (a b : pos) : {a = b} + {a <> b}.
+Proof. decide equality; apply Z.eq_dec. Qed.
+(* drawing a different object on each of a list of distinct in-grid cells *)
+Lemma draw_zip_spec : forall ps os g, wf_grid g -> NoDup ps -> length ps = length os -> (forall p, In p ps -> in_grid g p = true) ->
+  exists g', draw_zip g ps os = Ok g' /\ wf_grid g' /\ gheight g' = gheight g /\ gwidth g' = gwidth g /\
+             (forall k d d', (k < length ps)%nat -> lookupH g' (nth k ps d) = nth k os d') /\ (forall q, ~ In q ps -> lookupH g' q = lookupH g q).
+Proof.
+  induction ps as [|p t IH]; intros os g W Nd Hl Hin.
+  - exists g. cbn [draw_zip]. destruct os; split; try reflexivity; split; try exact W; split; try reflexivity; split; try reflexivity; split; cbn [length]; intros; try lia; reflexivity.
+  - destruct os as [|o ot]; [discriminate Hl|]. cbn [draw_zip].
+    assert (Hp : in_grid g p = true) by (apply Hin; left; auto). rewrite (grid_set_in g p o W Hp). cbn [rbind].
+    inversion Nd as [|? ? Hn Hd]; subst.
+    destruct (IH ot (gset g p o) (wf_gset g p o W) Hd ltac:(cbn [length] in Hl; lia)) as (g' & E & W' & Eh & Ew & L1 & L2).
+    { intros q Hq. rewrite in_grid_gset. apply Hin. right; auto. }
+    exists g'. rewrite E, Eh, Ew, gheight_gset, gwidth_gset. split; [reflexivity|]. split; [exact W'|]. split; [reflexivity|]. split; [reflexivity|]. split.
+    + intros k d d' Hk. destruct k as [|k]; cbn [nth].
+      * rewrite (L2 p Hn). now apply lookupH_gset_same.
+      * apply L1. cbn [length] in Hk. lia.
+    + intros q Hq. rewrite L2 by (intros H; apply Hq; right; auto). apply lookupH_gset_other. intros ->. apply Hq. left; auto.
+Qed.
+Lemma NoDup_app_inv {A} (l1 l2 : list A) : NoDup (l1 ++ l2) -> NoDup l1 /\ NoDup l2 /\ (forall x, In x l1 -> ~ In x l2).
+Proof.
+  induction l1 as [|a t IH]; cbn [app]; intros Nd; [split; [constructor | split; [exact Nd | intros x []]]|].
+  inversion Nd as [|? ? Hn Hd]; subst. destruct (IH Hd) as (N1 & N2 & Dis). split; [|split; [exact N2|]].
+  - constructor; [intros H; apply Hn, in_or_app; left; exact H | exact N1].
+  - intros x [->|Hx] H2; [apply Hn, in_or_app; right; exact H2 | exact (Dis x Hx H2)].
+Qed.
+Lemma firstn_skipn_NoDup {A} n (l : list A) : NoDup l -> NoDup (firstn n l) /\ NoDup (skipn n l) /\ (forall x, In x (firstn n l) -> ~ In x (skipn n l)).
+Proof. intros Nd. rewrite <- (firstn_skipn n l) in Nd. now apply NoDup_app_inv. Qed.
+
 Section Rooms.
 Variables (h w : Z) (ym xm : list Z).
 Hypotheses (Hh : 2 <= h) (Hw : 2 <= w) (Hym : forall y, In y ym -> 1 <= y <= h - 2) (Hxm : forall x, In x xm -> 1 <= x <= w - 2).
@@ -65,7 +111,9 @@ Lemma inner_xsp : Reset.inner xsp = xm. Proof. unfold Reset.inner, xsp. cbn [tl]
 Record rinv (g : grid) : Prop := {
   ri_wf : wf_grid g; ri_h : gheight g = h; ri_w : gwidth g = w;
   ri_border : forall q, in_grid g q = true -> is_border h w q = true -> lookupH g q = Wall;
-  ri_noexit : forall q, in_grid g q = true -> is_ty ty_Exit (lookupH g q) = false }.
+  ri_cells : forall q, in_grid g q = true -> lookupH g q = Wall \/ lookupH g q = Floor }.
+Lemma ri_noexit g : rinv g -> forall q, in_grid g q = true -> is_ty ty_Exit (lookupH g q) = false.
+Proof. intros C q Iq. destruct (ri_cells _ C q Iq) as [-> | ->]; vm_compute; reflexivity. Qed.
 Lemma rinv_in_grid g q : rinv g -> (in_grid g q = true <-> 0 <= fst q < h /\ 0 <= snd q < w).
 Proof. intros C. rewrite in_grid_spec, (ri_h _ C), (ri_w _ C). tauto. Qed.
 Lemma rinv_set g q : rinv g -> 1 <= fst q <= h - 2 -> 1 <= snd q <= w - 2 -> rinv (gset g q Floor).
@@ -77,7 +125,7 @@ Proof.
   - rewrite gwidth_gset. apply (ri_w _ C).
   - intros p Ip Bp. rewrite in_grid_gset in Ip. rewrite lookupH_gset_other; [now apply (ri_border _ C)|].
     intros ->. unfold is_border in Bp. rewrite !orb_true_iff, !Z.eqb_eq in Bp. lia.
-  - intros p Ip. rewrite in_grid_gset in Ip. rewrite (lookupH_gset g q p Floor (ri_wf _ C) Iq). destruct (pos_eqb q p); [vm_compute; reflexivity | now apply (ri_noexit _ C)].
+  - intros p Ip. rewrite in_grid_gset in Ip. rewrite (lookupH_gset g q p Floor (ri_wf _ C) Iq). destruct (pos_eqb q p); [right; reflexivity | now apply (ri_cells _ C)].
 Qed.
 
 (* the walls *)
@@ -108,7 +156,7 @@ Proof.
     destruct (in_dec Z.eq_dec (fst q) ysp) as [Hy|Hy].
     + right. apply memP_iff, H1. split; [exact Hy | lia].
     + left. apply memP_iff, H2. split; [split; [lia | exact Hy]|]. apply xsp_In. rewrite ysp_In in Hy. intuition lia.
-  - intros q Iq. rewrite IGb in Iq. rewrite (L q Iq). destruct (memP q ps2 || memP q ps1); vm_compute; reflexivity.
+  - intros q Iq. rewrite IGb in Iq. rewrite (L q Iq). destruct (memP q ps2 || memP q ps1); auto.
 Qed.
 
 (* the passages *)
@@ -196,5 +244,125 @@ Proof.
     + intros [Iq Hq]. rewrite (lookupH_gset g pe q _ (ri_wf _ C) Ie) in Hq. destruct (pos_eqb pe q) eqn:E; [apply pos_eqb_iff in E; auto|].
       rewrite (ri_noexit _ C q Iq) in Hq. discriminate.
     + intros ->. split; [exact Ie|]. rewrite (lookupH_gset_same g pe _ (ri_wf _ C) Ie). vm_compute. reflexivity.
+Qed.
+(* ---------- memory_rooms ---------- *)
+Theorem memory_rooms_wf cs nb ne own r : NoDup cs -> Leaf (reset_memory_rooms h w ysp xsp cs nb ne own) r ->
+  r = Err ValueError \/ exists s, r = Ok s /\ wf_check (PMemoryRooms h w ysp xsp cs nb ne) s = true.
+Proof.
+  intros Ncs HL. unfold reset_memory_rooms in HL.
+  destruct (memZ 0 cs); [apply Leaf_Raise in HL; auto|].
+  destruct (Z.of_nat (length cs) <? 2) eqn:G2; [apply Leaf_Raise in HL; auto|]. apply Z.ltb_ge in G2.
+  destruct (nb <? 1) eqn:G3; [apply Leaf_Raise in HL; auto|]. apply Z.ltb_ge in G3.
+  destruct (ne <? 2) eqn:G4; [apply Leaf_Raise in HL; auto|]. apply Z.ltb_ge in G4.
+  apply Leaf_bind in HL. destruct HL as [(g & Hg & HL)|(e & He & ->)].
+  2:{ destruct (rooms_grid_inv _ _ He) as [E|(g' & E & _)]; [injection E as ->; auto | discriminate]. }
+  destruct (rooms_grid_inv _ _ Hg) as [E|(g' & E & C)]; [discriminate|]. injection E as <-.
+  unfold floor_positions in HL. rewrite (positions_where_ok g _ (gpositions g) (ri_wf _ C)) in HL by (intros q Hq; now apply gpositions_In). cbn [lift bind] in HL.
+  set (fl := filter (fun p => is_ty ty_Floor (lookupH g p)) (gpositions g)) in *.
+  assert (Nfl : NoDup fl) by (apply NoDup_filter, gpositions_NoDup).
+  apply Leaf_bind in HL. destruct HL as [(ps & Hps & HL)|(e & He & ->)].
+  2:{ apply rchoices_leaf in He. destruct He as [E|(idx & E & _)]; [injection E as ->; auto | discriminate]. }
+  apply rchoices_leaf in Hps. destruct Hps as [E|(idx & E & Hlen & Hr & Nd)]; [discriminate|]. injection E as ->.
+  destruct (sampled_spec fl (0, 0) idx Nfl Hr Nd) as (Hin & Nps & Lps).
+  set (ps := map (fun i => nthZ fl i (0, 0)) idx) in *.
+  apply Leaf_bind in HL. destruct HL as [(oa & _ & HL)|(e & He & ->)].
+  2:{ destruct (rchoice_of_leaf _ all_oris FORWARD _ ltac:(vm_compute; discriminate) He) as (a & E & _). discriminate. }
+  apply Leaf_bind in HL. destruct HL as [(cols & Hcols & HL)|(e & He & ->)].
+  2:{ apply rchoices_leaf in He. destruct He as [E|(idx' & E & _)]; [injection E as ->; auto | discriminate]. }
+  apply rchoices_leaf in Hcols. destruct Hcols as [E|(idc & E & Hlenc & Hrc & Ndc)]; [discriminate|]. injection E as ->.
+  destruct (sampled_spec (isort cs) 0 idc (NoDup_isort _ Ncs) Hrc Ndc) as (Hinc & Ncols & Lcols).
+  set (cols := map (fun i => nthZ (isort cs) i 0) idc) in *.
+  (* the cells: agent, beacons, exits *)
+  destruct ps as [|pa rest] eqn:Eps; [cbn [length] in Lps; lia|]. cbn [hd tl] in HL.
+  assert (Lrest : length rest = Z.to_nat (nb + ne)) by (cbn [length] in Lps; lia).
+  set (bps := firstn (Z.to_nat nb) rest) in *. set (eps := skipn (Z.to_nat nb) rest) in *.
+  apply NoDup_cons_iff in Nps. destruct Nps as [Hpa_notin Nrest].
+  destruct (firstn_skipn_NoDup (Z.to_nat nb) rest Nrest) as (Nb & Ne & Dis). fold bps eps in Nb, Ne, Dis.
+  assert (Lb : length bps = Z.to_nat nb) by (unfold bps; rewrite firstn_length; lia).
+  assert (Le : length eps = Z.to_nat ne) by (unfold eps; rewrite skipn_length; lia).
+  assert (Rin : forall q, In q rest <-> In q bps \/ In q eps) by (intros q; unfold bps, eps; rewrite <- (firstn_skipn (Z.to_nat nb) rest) at 1; apply in_app_iff).
+  assert (Floor_cell : forall q, In q (pa :: rest) -> in_grid g q = true /\ is_ty ty_Floor (lookupH g q) = true).
+  { intros q Hq. apply Hin in Hq. apply filter_In in Hq. destruct Hq as [Hq1 Hq2]. apply gpositions_In in Hq1. auto. }
+  destruct ty_distinct_holds as (D1 & D2 & D3 & D4 & D5).
+  assert (Inner_cell : forall q, In q (pa :: rest) -> is_border h w q = false /\ lookupH g q = Floor).
+  { intros q Hq. destruct (Floor_cell q Hq) as [Iq Fq]. destruct (ri_cells _ C q Iq) as [E|E]; [rewrite E in Fq; vm_compute in Fq; discriminate|]. split; [|exact E].
+    destruct (is_border h w q) eqn:B; [|reflexivity]. rewrite (ri_border _ C q Iq B) in E. discriminate. }
+  (* beacons *)
+  set (good := hd 0 cols) in *.
+  destruct (draw_spec bps g (Beacon good) (ri_wf _ C)) as (g1 & E1 & W1 & Eh1 & Ew1 & L1).
+  { intros q Hq. apply Floor_cell. right. apply Rin. auto. }
+  rewrite E1 in HL. cbn [lift bind] in HL.
+  assert (IG1 : forall q, in_grid g1 q = in_grid g q) by (intros q; unfold in_grid, garea; now rewrite Eh1, Ew1).
+  (* exits *)
+  destruct (draw_zip_spec eps (map Exit cols) g1 W1 Ne) as (g2 & E2 & W2 & Eh2 & Ew2 & L2a & L2b).
+  { rewrite map_length, Le, Lcols. lia. }
+  { intros q Hq. rewrite IG1. apply Floor_cell. right. apply Rin. auto. }
+  rewrite E2 in HL. cbn [lift bind] in HL. apply Leaf_Ret in HL. subst r. right. eexists; split; [reflexivity|].
+  assert (IG2 : forall q, in_grid g2 q = in_grid g q) by (intros q; rewrite <- IG1; unfold in_grid, garea; now rewrite Eh2, Ew2).
+  (* every cell of the final grid *)
+  assert (Lother : forall q, in_grid g q = true -> ~ In q bps -> ~ In q eps -> lookupH g2 q = lookupH g q).
+  { intros q Iq Hb He. rewrite (L2b q He), L1. replace (memP q bps) with false; [reflexivity|]. symmetry. now apply memP_false. }
+  assert (Lbeacon : forall q, In q bps -> lookupH g2 q = Beacon good).
+  { intros q Hq. rewrite (L2b q (Dis q Hq)), L1, (proj2 (memP_iff q bps) Hq). destruct (Floor_cell q) as [Iq _]; [right; apply Rin; auto|]. now rewrite Iq. }
+  assert (Lexit : forall k, (k < length eps)%nat -> lookupH g2 (nth k eps (0, 0)) = Exit (nth k cols 0)).
+  { intros k Hk. rewrite (L2a k (0, 0) (Exit 0) Hk). change (Exit 0) with (Exit 0). rewrite (map_nth Exit cols 0 k). reflexivity. }
+  assert (Hgood : In good cols) by (unfold good; destruct cols as [|c0 ct]; [cbn [length] in Lcols; lia | left; reflexivity]).
+  unfold wf_check.
+  assert (Cm : common_ok (mkS g2 pa oa NoneObj) h w = true).
+  { unfold common_ok, shape_is, agent_ok. cbn [sgrid spos sheld]. rewrite !andb_true_iff.
+    destruct (Inner_cell pa (or_introl eq_refl)) as [Bpa Fpa]. destruct (Floor_cell pa (or_introl eq_refl)) as [Ipa _].
+    assert (Lpa : lookupH g2 pa = Floor).
+    { rewrite (Lother pa Ipa); [exact Fpa | intros H; apply Hpa_notin, Rin; auto | intros H; apply Hpa_notin, Rin; auto]. }
+    repeat split.
+    - now apply wf_gridb_spec.
+    - apply Z.eqb_eq. rewrite Eh2, Eh1. apply (ri_h _ C).
+    - apply Z.eqb_eq. rewrite Ew2, Ew1. apply (ri_w _ C).
+    - unfold border_walls. apply forallb_forall. intros q Hq. apply border_In in Hq. unfold garea in Hq. cbn [ymin ymax xmin xmax] in Hq.
+      rewrite Eh2, Eh1, Ew2, Ew1, (ri_h _ C), (ri_w _ C) in Hq.
+      assert (Iq : in_grid g q = true) by (apply (rinv_in_grid g q C); lia).
+      assert (Bq : is_border h w q = true) by (unfold is_border; rewrite !orb_true_iff, !Z.eqb_eq; lia).
+      assert (Nqb : ~ In q bps) by (intros H; destruct (Inner_cell q) as [B _]; [right; apply Rin; auto | congruence]).
+      assert (Nqe : ~ In q eps) by (intros H; destruct (Inner_cell q) as [B _]; [right; apply Rin; auto | congruence]).
+      rewrite (Lother q Iq Nqb Nqe), (ri_border _ C q Iq Bq). vm_compute. reflexivity.
+    - rewrite IG2. exact Ipa.
+    - rewrite Lpa. vm_compute. reflexivity.
+    - rewrite Lpa. vm_compute. reflexivity.
+    - rewrite Lpa. vm_compute. reflexivity.
+    - rewrite Lpa. vm_compute. reflexivity. }
+  rewrite Cm. cbn [andb].
+  (* inventory *)
+  assert (In_eps : forall q, In q eps -> exists k, (k < length eps)%nat /\ q = nth k eps (0, 0)) by (intros q Hq; apply In_nth with (d := (0, 0)) in Hq; destruct Hq as (k & Hk & E); eauto).
+  assert (Exits : forall q, In q (cells_at g2 (is_ty ty_Exit)) <-> In q eps).
+  { intros q. rewrite cells_at_In, IG2. split.
+    - intros [Iq Hq]. destruct (in_dec pos_eq_dec q eps) as [H|He]; [exact H|]. exfalso.
+      destruct (in_dec pos_eq_dec q bps) as [Hb|Hb]; [rewrite (Lbeacon q Hb) in Hq; vm_compute in Hq; discriminate|].
+      rewrite (Lother q Iq Hb He), (ri_noexit _ C q Iq) in Hq. discriminate.
+    - intros Hq. split; [apply Floor_cell; right; apply Rin; auto|]. destruct (In_eps q Hq) as (k & Hk & ->). rewrite (Lexit k Hk). vm_compute. reflexivity. }
+  assert (Beacons : forall q, In q (cells_at g2 (is_ty ty_Beacon)) <-> In q bps).
+  { intros q. rewrite cells_at_In, IG2. split.
+    - intros [Iq Hq]. destruct (in_dec pos_eq_dec q bps) as [H|Hb]; [exact H|]. exfalso.
+      destruct (in_dec pos_eq_dec q eps) as [He|He]; [destruct (In_eps q He) as (k & Hk & ->); rewrite (Lexit k Hk) in Hq; vm_compute in Hq; discriminate|].
+      rewrite (Lother q Iq Hb He) in Hq. destruct (ri_cells _ C q Iq) as [E|E]; rewrite E in Hq; vm_compute in Hq; discriminate.
+    - intros Hq. split; [apply Floor_cell; right; apply Rin; auto|]. rewrite (Lbeacon q Hq). vm_compute. reflexivity. }
+  assert (PE : Permutation (cells_at g2 (is_ty ty_Exit)) eps) by (apply NoDup_Permutation; [apply NoDup_filter, gpositions_NoDup | exact Ne | exact Exits]).
+  assert (PB : Permutation (cells_at g2 (is_ty ty_Beacon)) bps) by (apply NoDup_Permutation; [apply NoDup_filter, gpositions_NoDup | exact Nb | exact Beacons]).
+  assert (Ecols : map (fun p => ocol (lookupH g2 p)) eps = cols).
+  { apply (nth_ext _ _ 0 0); [rewrite map_length, Le, Lcols; lia|]. intros k Hk. rewrite map_length in Hk.
+    rewrite (nth_indep _ 0 (ocol (lookupH g2 (0, 0)))) by (rewrite map_length; exact Hk). rewrite (map_nth (fun p => ocol (lookupH g2 p)) eps (0, 0) k), (Lexit k Hk). reflexivity. }
+  assert (PX : Permutation (map (fun p => ocol (lookupH g2 p)) (cells_at g2 (is_ty ty_Exit))) cols) by (rewrite <- Ecols; apply Permutation_map, PE).
+  unfold memory_ok. cbn [sgrid]. set (exits := map (fun p => ocol (lookupH g2 p)) (cells_at g2 (is_ty ty_Exit))) in *.
+  set (beacons := map (fun p => ocol (lookupH g2 p)) (cells_at g2 (is_ty ty_Beacon))) in *.
+  assert (Bgood : forall b, In b beacons -> b = good).
+  { intros b Hb. unfold beacons in Hb. apply in_map_iff in Hb. destruct Hb as (q & <- & Hq). apply Beacons in Hq. rewrite (Lbeacon q Hq). reflexivity. }
+  assert (Lbe : length beacons = Z.to_nat nb) by (unfold beacons; rewrite map_length, (Permutation_length PB); exact Lb).
+  rewrite !andb_true_iff. repeat split.
+  - apply Z.eqb_eq. rewrite (Permutation_length PX), Lcols. lia.
+  - unfold all_distinct. apply NoDup_nodupb. eapply Permutation_NoDup; [apply Permutation_sym, PX | exact Ncols].
+  - apply forallb_forall. intros c Hc. apply (Permutation_in _ PX) in Hc. apply memZ_In. apply Hinc in Hc. now apply (proj1 (In_isort _ _)).
+  - apply Z.eqb_eq. lia.
+  - destruct beacons as [|b t] eqn:Eb; [cbn [length] in Lbe; lia|].
+    assert (b = good) by (apply Bgood; left; auto). subst b. apply andb_true_iff. split.
+    + apply forallb_forall. intros c Hc. apply Z.eqb_eq. symmetry. apply Bgood. right; exact Hc.
+    + apply Z.eqb_eq. rewrite (filter_length_perm _ _ _ PX), (filter_eq_one good cols Ncols Hgood). reflexivity.
 Qed.
 End Rooms.
